@@ -18,7 +18,7 @@ ENV["CARGO_NET_OFFLINE"] = "true"
 ENV.setdefault("CARGO_TERM_COLOR", "never")
 
 
-HARNESS_RE = re.compile(r"^//\s*@harness\s+(?P<meta>[^\n]*)\n(?:\s*//[^\n]*\n)*\s*(?:vnd::)?harness!\(\s*(?P<name>\w+)\s*,", re.M)
+HARNESS_RE = re.compile(r"^//\s*@harness\s+(?P<meta>[^\n]*)\n(?:\s*(?://|#\[)[^\n]*\n)*\s*(?:vnd::)?harness!\(\s*(?P<name>\w+)\s*,", re.M)
 
 
 def parse_harness_meta(text):
@@ -41,6 +41,8 @@ def parse_harness_meta(text):
                 meta["timeout"] = int(v)
             elif k == "cfg":
                 meta["cfg"] = v.split(",")
+            elif k == "need_cover":
+                meta["need_cover"] = v not in ("0", "false", "no")
             elif k == "quick_for":
                 meta["quick_for"] = v.split(",")
             else:
@@ -65,7 +67,7 @@ def write_if_changed(path, content):
         f.write(content)
 
 
-def generate_crate(unit, files, harness_names):
+def generate_crate(unit, files, metas):
     """Write the generated crate for `unit` under build/k/<unit>; returns its directory."""
     d = os.path.join(BUILD, "k", unit["name"])
     src = os.path.join(d, "src")
@@ -75,7 +77,12 @@ def generate_crate(unit, files, harness_names):
     for rel, content in files.items():
         write_if_changed(os.path.join(d, rel), content)
     crate = "vk_" + unit["name"]
-    arms = "\n".join(f'        "{h}" => {crate}::harness::{h}(),' for h in harness_names)
+    def arm(m):
+        cfg = ""
+        if m.get("cfg"):
+            cfg = "#[cfg(all(" + ", ".join(m["cfg"]) + "))] "
+        return f'        {cfg}"{m["name"]}" => {crate}::harness::{m["name"]}(),'
+    arms = "\n".join(arm(m) for m in metas)
     replay = f"""fn main() {{
     let name = std::env::args().nth(1).expect("harness name");
     match name.as_str() {{
@@ -188,6 +195,10 @@ def run_kani(crate_dir, unit, h, log_dir, playback=False):
         args += ["--concrete-playback=print"]
     for z in sorted(zflags):
         args += ["-Z", z]
+    if not unit.get("reach_checks", False):
+        # Kani's per-assertion reachability checks make CBMC build one trace per check: measured 376 s -> 21 s
+        # on a bit-packing kernel without them.  Vacuity is guarded by the kani::cover! witnesses instead.
+        args += ["--no-assertion-reach-checks"]
     args += unit.get("kani_args", [])
     args += h.get("kani_args", [])
     env = dict(ENV)
